@@ -860,6 +860,12 @@ def apply_splices(body, splices, fired, what):
                     body = body[:m.start()] + _pad(anchor, m.group(0)) + body[m.end():]
                     cnt = body.count(anchor)
                     fired.append('R8 anchor %r matched modulo white space / comments' % anchor[:40])
+        if cnt == 0 and mode.endswith('?'):
+            # an OPTIONAL annotation (mode `closure?` ...): the construct it annotates is not in this version of the function - nothing to annotate;
+            # the function is verified as it stands (its contract decides), instead of being given up as undecided
+            fired.append('R8 optional splice at %r not applicable (construct absent)' % anchor[:40])
+            continue
+        mode = mode.rstrip('?')
         if cnt != 1:
             raise ExtractError('ANCHOR-LOST in %s: %r occurs %d times' % (what, anchor, cnt))
         ghost = txt.replace('\n', SEP)
